@@ -20,13 +20,8 @@ func cyclicToNativeCode(kind vm.OpCode) []byte {
 	return a.code()
 }
 
-// panicWitnesses: known findings that end in a recoverable panic (admin-only).
-func panicWitnesses(w *world) []Probe {
-	// governance.updateConfig(N 7, C 1, K 0, L 112, ...) signed by the admin: `L % K` with K = 0
-	cfg := nStruct(nI(7), nI(1), nI(0), nI(112), nI(10000), nI(10000), nI(10000), nI(1000))
-	return []Probe{{Name: "witness:admin-only:governance-updateConfig-K0", BlockOnly: true,
-		Txs: []TxSpec{{Kind: "native", Contract: addrHex(nutils.GovernanceContractAddress), Method: "updateConfig", Args: &cfg, Signers: []int{-1}}}}}
-}
+// panicWitnesses: known findings that end in a recoverable panic (none open at present).
+func panicWitnesses(w *world) []Probe { return nil }
 
 // fatalWitnesses: known findings that end the process (stack overflow) or never return.
 func fatalWitnesses(w *world) []Probe {
